@@ -11,6 +11,7 @@ A history is
     an optional 4th element holds compile OPTIONS of the public entry points:
         {"reserved": [names]}  -> additional_reserved_names=set(names)
         {"api": "string" | "library" | "dir"}  -> VhdlCompiler.to_string / to_vhdl_library().write() / to_dir
+        {"hold": n}   -> n small objects are alive during the operation (history event like "gc")
         {"gc": true}  -> gc.collect() before the operation (not a compile option: frees the cyclic garbage of
                          earlier compilations, so that object addresses are reused)
 executed in the current interpreter.  Every compile is classified only as accepted (VHDL
@@ -140,6 +141,16 @@ def sanitize() -> list[str]:
     return dirty
 
 
+def _hold(n):
+    """n live objects owned by the program during a compilation: instances of the public `cohdl.Block`
+    (the kind of object the compiler itself creates and frees per compilation)"""
+    if n <= 0:
+        return []
+    import cohdl
+
+    return [cohdl.Block("held", {}) for _ in range(n)]
+
+
 # ----------------------------------------------------------------------------- compile
 def _emit(cls, opts):
     """Call the public compile entry point selected by the options; returns the emitted text."""
@@ -218,6 +229,9 @@ def run_history(designs: list[str], ops: list[list], monitor: bool = True):
         opts = entry[3] if len(entry) > 3 else None
         if opts and opts.get("gc"):
             gc.collect()  # part of the history: garbage of earlier compilations is freed before this one
+        # part of the history: the program owns n more small live objects while this compilation runs
+        # (shifts which freed addresses the compilation's own objects are given)
+        pad = _hold(int(opts.get("hold", 0))) if opts else []
         src = designs[di]
         res = None
         if op == "f" or (op == "c" and di not in mods) or (op == "a" and (di, top) not in last):
@@ -242,6 +256,7 @@ def run_history(designs: list[str], ops: list[list], monitor: bool = True):
             else:
                 raise ValueError(f"unknown op {op!r}")
             last[(di, top)] = cls
+        del pad
         if monitor:
             now = set(state_dirty())
             res["dirty"] = sorted(now)
